@@ -226,24 +226,48 @@ def b5(e: Engine, rep: Report):
     g = e.build(ctx, raises=lambda b, n, r: set())
     fx = e.facts(g)
 
-    def embedded(n):
-        """the Name node this CFG node embeds into the bounce as it is:
-        payload.write(x), or `yield x` in the generator of the parts"""
+    # lists whose elements are joined without a separator into the payload
+    joined_lists = {x.args[0].id for x in walk_own(fn)
+                    if isinstance(x, ast.Call) and
+                    isinstance(x.func, ast.Attribute) and
+                    x.func.attr == 'join' and
+                    isinstance(x.func.value, ast.Constant) and
+                    x.func.value.value == b'' and len(x.args) == 1 and
+                    isinstance(x.args[0], ast.Name)}
+
+    def embedded_all(n):
+        """the Name nodes this CFG node embeds into the bounce as they are:
+        payload.write(x), `yield x` in the generator of the parts,
+        parts.append(x) / parts = [.., x, ..] for a list that is joined
+        with b''"""
         if n.kind == 'call' and e.call_name(n) == 'write' and n.ast.args \
                 and isinstance(n.ast.args[0], ast.Name):
-            return n.ast.args[0]
+            return [n.ast.args[0]]
+        if n.kind == 'call' and e.call_name(n) == 'append' and \
+                len(n.ast.args) == 1 and \
+                isinstance(n.ast.args[0], ast.Name) and \
+                isinstance(n.ast.func.value, ast.Name) and \
+                n.ast.func.value.id in joined_lists:
+            return [n.ast.args[0]]
+        if n.kind == 'stmt' and isinstance(n.ast, ast.Assign) and \
+                isinstance(n.ast.value, ast.List) and any(
+                    isinstance(t, ast.Name) and t.id in joined_lists
+                    for t in n.ast.targets):
+            return [x for x in n.ast.value.elts if isinstance(x, ast.Name)]
         if n.kind == 'stmt' and isinstance(n.ast, ast.Expr) and \
                 isinstance(n.ast.value, ast.Yield) and \
                 isinstance(n.ast.value.value, ast.Name):
-            return n.ast.value.value
-        return None
-    writes = {nm: [n for n in g.nodes if embedded(n) is not None and
-                   embedded(n).id == nm] for nm in names}
+            return [n.ast.value.value]
+        return []
+    writes = {nm: [n for n in g.nodes
+                   if any(x.id == nm for x in embedded_all(n))]
+              for nm in names}
     # any other use of the two values is a transformation
     for nm in names:
         other = [n for n in walk_own(fn) if isinstance(n, ast.Name) and
                  n.id == nm and isinstance(n.ctx, ast.Load) and not any(
-                     embedded(w) is n for w in writes[nm])]
+                     any(x is n for x in embedded_all(w))
+                     for w in writes[nm])]
         rep.evaluations += 1
         rep.check(bool(writes[nm]) and not other, 'B5', where,
                   '`%s` is written as it is' % nm,
@@ -253,7 +277,8 @@ def b5(e: Engine, rep: Report):
                   loc=ctx.func.loc(other[0] if other else a),
                   reason='only use: payload.write(%s) / yield' % nm)
     after = dataflow.must_events_after(
-        g, lambda n: ['w:' + embedded(n).id] if any(
+        g, lambda n: ['w:' + x.id for x in embedded_all(n)
+                      if x.id in names] if any(
             n in ws for ws in writes.values()) else [],
         edge=c07.no_call_exc)
     fnode = [n for n in g.nodes if n.kind == 'stmt' and n.ast is a]
